@@ -205,6 +205,52 @@ def f(xs):
 ''', "f", [([],), ([3, 4],)])
 
 
+case('''
+LOG = []
+from contextlib import contextmanager
+@contextmanager
+def staged(name, fail):
+    LOG.append(("open", name))
+    try:
+        with open(__import__("os").devnull, "w") as fh:
+            yield (fh, name)
+            LOG.append("published")
+    except ValueError:
+        LOG.append("cleanup")
+        raise
+    finally:
+        LOG.append("closed")
+def f(name, fail):
+    try:
+        with staged(name, fail) as (fh, nm):
+            LOG.append(("body", nm))
+            if fail:
+                raise ValueError("x")
+        LOG.append("after")
+        return "ok"
+    except ValueError:
+        return "failed"
+''', "f", [("a", False), ("b", True)])
+
+class _H:
+    pass
+
+case('''
+LOG = []
+class K:
+    def __init__(self):
+        self.items = []
+    def _rekey(self, new):
+        self.id = new
+        self.items.append(new)
+def f(n):
+    ks = [K() for _ in range(n)]
+    for handle in ks:
+        handle._rekey(n)
+    return [(k.id, k.items) for k in ks]
+''', "f", [(0,), (2,)])
+
+
 def run(tree, entry, args):
     ns = {}
     exec(compile(tree, "<case>", "exec"), ns)
@@ -220,7 +266,7 @@ def main():
     bad = 0
     for k, (src, entry, inputs) in enumerate(CASES):
         t0 = ast.parse(src)
-        known = {"m:" + entry} | {"m:" + n.name for n in t0.body if isinstance(n, ast.FunctionDef) and n.name in (entry, "mk", "g", "f", "outer")} | {"m:K.f", "m:K.__init__", "m:K", "m:LOG", "m:mk.<locals>.job"}
+        known = {"m:" + entry} | {"m:" + n.name for n in t0.body if isinstance(n, ast.FunctionDef) and n.name in (entry, "mk", "g", "f", "outer")} | {"m:K.f", "m:K.__init__", "m:K", "m:LOG", "m:mk.<locals>.job", "m:_H"}
         t1, log = inline_new_helpers("m", ast.parse(src), known)
         ast.fix_missing_locations(t1)
         expanded = [l for l in log if "<-" in l]
